@@ -94,7 +94,19 @@ ELEMS["w"] = E("w", 105, [(_x, 1), (_y, -2)])                       # compound
 ELEMS["kw"] = E("kw", 105, [(1000, 1), (ELEMS["w"], 1)])            # scaled compound
 ELEMS["v"] = E("v", 106, [(ELEMS["w"], 1), (ELEMS["10x"], 1)])      # nested
 
-UNIT_SYMS = ["m", "km", "cm", "in", "mi", "s", "h", "min", "kg", "g", "lb", "N", "J", "W", "kW", "kWh", "Ws", "J/m",
+# derived units of a type without reference unit (price per lc): equal scale, different base units
+from quantity import Quantity as _Q, QuantityMeta as _QM  # noqa: E402
+from .. import lab as _lab  # noqa: E402
+_EUR, _USD = Money.register_currency("EUR"), Money.register_currency("USD")
+C07P = _QM("C07P", (_Q,), {}, define_as=Money / _lab.LabC)
+_P_UNITS = {
+    C07P.derive_unit_from(_EUR, _lab.LC, symbol="EUR/lc").symbol: (Fraction(1), {"EUR": 1, "lc": -1}),
+    C07P.derive_unit_from(_USD, _lab.LC, symbol="USD/lc").symbol: (Fraction(1), {"USD": 1, "lc": -1}),
+    C07P.derive_unit_from(_EUR, _lab.LC_K, symbol="EUR/klc").symbol: (Fraction(1, 1000), {"EUR": 1, "lc": -1}),
+    C07P.derive_unit_from(_USD, _lab.LC_C, symbol="USD/clc").symbol: (Fraction(100), {"USD": 1, "lc": -1}),
+}
+
+UNIT_SYMS = list(_P_UNITS) + ["m", "km", "cm", "in", "mi", "s", "h", "min", "kg", "g", "lb", "N", "J", "W", "kW", "kWh", "Ws", "J/m",
              "m²", "ha", "l", "m³", "km/h", "Hz", "B", "kB", "b/s", "lc", "klc", "ilc", "ld", "hld", "lcd", "tlcd",
              "°C", "°F", "K"]
 CUR = ["EUR", "USD"]
@@ -112,6 +124,8 @@ def den_elem(tag):
         return Fraction(1), {name: 1}
     if name in refdata.TEMP_UNITS:
         return Fraction(1), {name: 1}
+    if name in _P_UNITS:
+        return _P_UNITS[name]
     t, s = cat.ALL_UNITS[name]
     return s, {_BASE_REF[b]: e for b, e in cat.ALL_DIMS[t].items()}
 
